@@ -788,8 +788,8 @@ class Solver:
                     structures=list(_set),
                     connections=connections,
                     pin_mapping=mapping,
-                    param_mapping=self.param_mapping,
-                    param_dic=self.param_dic,
+                    param_mapping=copy(self.param_mapping),
+                    param_dic=deepcopy(self.default_params),
                 )
             )
         return solvers
